@@ -1,10 +1,11 @@
 /* LD_PRELOAD shim for getentropy(3): scripted bytes / failures at the k-th request, with a request log.
  *
- *   HDW_SHIM_SCRIPT  file; line k (0-based) decides request k: "fail" -> return -1 (errno EIO),
+ *   HDW_SHIM_SCRIPT  file; line k (0-based) decides request k: "fail" -> return -1 (errno EIO), "fail:EINTR" /
+ *                    "fail:<ERRNO NAME or number>" -> return -1 with that errno,
  *                    otherwise hex bytes, repeated cyclically to the requested length.
  *                    Requests beyond the last line follow HDW_SHIM_DEFAULT.
  *   HDW_SHIM_DEFAULT "counter" (default): byte i of request k comes from a 64-bit LCG seeded by k (see below);
- *                    "fail": return -1;  "real": call the real getentropy.
+ *                    "fail" / "fail:<errno>": return -1;  "real": call the real getentropy.
  *   HDW_SHIM_LOG     file; one line "k len" appended per request (O_APPEND, one write each).
  *
  * Used only by the correspondence checks of C12/C18 (no source hook is needed in hdwallet). */
@@ -41,6 +42,21 @@ static void load_script(void) {
     fclose(f);
 }
 
+/* "fail" -> EIO; "fail:EINTR", "fail:EAGAIN", ... or "fail:<number>" -> that errno */
+static int fail_errno(const char *l) {
+    static const struct { const char *name; int value; } names[] = {
+        {"EINTR", EINTR}, {"EAGAIN", EAGAIN}, {"EIO", EIO}, {"ENOSYS", ENOSYS}, {"EFAULT", EFAULT},
+        {"EINVAL", EINVAL}, {"EPERM", EPERM}, {"ENOMEM", ENOMEM}, {"EBADF", EBADF}, {"ENOENT", ENOENT},
+    };
+    if (strncmp(l, "fail", 4) != 0) return 0;
+    if (l[4] == 0) return EIO;
+    if (l[4] != ':') return 0;
+    for (size_t i = 0; i < sizeof names / sizeof names[0]; i++)
+        if (strcmp(l + 5, names[i].name) == 0) return names[i].value;
+    int v = atoi(l + 5);
+    return v > 0 ? v : EIO;
+}
+
 static int hexval(char c) {
     if (c >= '0' && c <= '9') return c - '0';
     if (c >= 'a' && c <= 'f') return c - 'a' + 10;
@@ -67,7 +83,7 @@ int getentropy(void *buffer, size_t len) {
     unsigned char *out = buffer;
     if (k < nlines) {
         const char *l = lines[k];
-        if (strcmp(l, "fail") == 0) { errno = EIO; return -1; }
+        { int e = fail_errno(l); if (e) { errno = e; return -1; } }
         size_t hl = strlen(l) / 2;
         if (hl == 0) { memset(out, 0, len); return 0; }
         for (size_t i = 0; i < len; i++) {
@@ -77,7 +93,7 @@ int getentropy(void *buffer, size_t len) {
         return 0;
     }
     const char *def = getenv("HDW_SHIM_DEFAULT");
-    if (def && strcmp(def, "fail") == 0) { errno = EIO; return -1; }
+    if (def) { int e = fail_errno(def); if (e) { errno = e; return -1; } }
     if (def && strcmp(def, "real") == 0) {
         int (*real)(void *, size_t) = dlsym(RTLD_NEXT, "getentropy");
         if (real) return real(buffer, len);
